@@ -405,7 +405,13 @@ impl Linter for LintGroup {
             };
 
             let chunk_chars = document.get_span_content(&chunk_span);
-            let config_hash = self.hasher_builder.hash_one(&self.config);
+            // The same characters can be tokenized differently (e.g. by another parser), so the
+            // tokens are part of the key.
+            let chunk_kinds: Vec<_> = chunk
+                .iter()
+                .map(|t| (t.span.start - chunk_span.start, t.span.len(), &t.kind))
+                .collect();
+            let config_hash = self.hasher_builder.hash_one((&self.config, chunk_kinds));
             let key = (chunk_chars.into(), config_hash);
 
             let mut chunk_results = if let Some(hit) = self.chunk_pattern_cache.get(&key) {
